@@ -291,6 +291,40 @@ fn run(unit: &Value, tier: Tier, out: &mut UnitResult) {
                     sizes.push((p as i64 + d) as usize);
                 }
             }
+            if part == 0 {
+                // a two-byte character at every byte offset of the route, of a header key and of
+                // a header value (fixed-index string handling trips on one of them)
+                for pos in 0..=130usize {
+                    for tail in [0usize, 70] {
+                        let text = format!("{}é{}", "x".repeat(pos), "y".repeat(tail));
+                        out.evaluations += 1;
+                        let (route, h) = (format!("/{text}"), vec![(text.clone(), text.clone())]);
+                        let want: BTreeMap<String, String> = h.iter().cloned().collect();
+                        let r = catch(|| {
+                            let enc = encode_request(&rt, &route, &h, b"b", true)?;
+                            if enc != ref_encode_request(&route, &h, b"b") {
+                                return Err(format!("encoded request differs from the documented layout (two-byte character at byte offset {pos})"));
+                            }
+                            let dec = decode_request(&rt, &enc, vec![])?;
+                            if dec.0 != route || dec.1 != want || dec.2 != b"b" {
+                                return Err(format!("round trip altered a request with a two-byte character at byte offset {pos}"));
+                            }
+                            let enc = encode_response(&rt, StatusCode::new(200).unwrap(), &h, b"b", true)?;
+                            let dec = decode_response(&rt, &enc, vec![])?;
+                            if dec.0 != 200 || dec.1 != want || dec.2 != b"b" {
+                                return Err(format!("round trip altered a response with a two-byte character at byte offset {pos}"));
+                            }
+                            Ok(())
+                        });
+                        out.class("utf8 offsets");
+                        match r {
+                            Ok(Ok(())) => {}
+                            Ok(Err(e)) => out.violation("size-boundary", e, rp("sizes", json!({"utf8_offset": pos}))),
+                            Err(p) => out.violation("codec-panics", format!("codec panicked with a two-byte character at byte offset {pos}: {p}"), rp("sizes", json!({"utf8_offset": pos}))),
+                        }
+                    }
+                }
+            }
             let mut n = 0usize;
             for (si, size) in sizes.iter().enumerate() {
                 if si % parts != part {
